@@ -17,6 +17,8 @@ class OpsMixin:
     def eval_const(self, st, frame, c):
         if "fn" in c:
             return VFn(c["fn"])
+        if "usize" in c:
+            return self.const_int(self.usize_ty(), c["usize"])       # constants of the synthetic bodies (lib/synth.py)
         ty = c.get("ty")
         t = self.fx.types[ty] if ty is not None else {"k": "other"}
         if "bits" in c:
